@@ -203,6 +203,10 @@ def run(ctx: Ctx) -> None:
             root = tgt.split(".")[0]
             allowed = None
             for (pf, pt), why in PERMIT_STORE.items():
+                # the position-independent grow flag is allowed wherever that decider class writes it (a hook method as much as the chooser itself)
+                if pf.startswith("PositionIndependentGrowDecider.") and site_fn.startswith("PositionIndependentGrowDecider.") and tgt == pt \
+                        and all(getattr(s_, "what", "") == "self.expanding" for s_ in sites):
+                    allowed = why
                 if pf == site_fn and (tgt == pt or tgt.startswith(pt + ".") or tgt.endswith("." + pt.split(".", 1)[-1]) and pt.startswith("genotype")):
                     allowed = why
             if allowed:
